@@ -5,4 +5,6 @@ import PyrollModel.PassGeomDriver
 def main : IO Unit :=
   PassGeomDriver.main { twoCls := Gen.C09.two_cls, twoLines := Gen.C09.two_roll_lines,
                         threeCls := Gen.C09.three_cls, threeLines := Gen.C09.three_roll_lines,
-                        table := Gen.C09.table }
+                        table := Gen.C09.table,
+                        twoCs := Gen.C09.two_usable_cs, twoCsHelper := Gen.C09.two_usable_cs_helper,
+                        threeCs := Gen.C09.three_usable_cs, threeCsHelper := Gen.C09.three_usable_cs_helper }
